@@ -3,6 +3,7 @@ CONSTANTS
   NOps = 2
   MaxSend = 4
   Dev_NoTimerDrain = TRUE
+  Dev_NoEofRecheck = FALSE
   Dev_NoDoubleCheck = FALSE
 SPECIFICATION Spec
 INVARIANTS Results
